@@ -46,6 +46,12 @@ func c09Items() []ref.Item {
 		add("nested", x, sib(f(ref.Map(L(ref.KInt), ref.Ptr(ref.Struct(ref.Fld(1, ref.Ptr(x))))))))
 		add("slice-struct", x, sib(f(ref.Slice(ref.Struct(ref.Fld(1, ref.Ptr(x)), ref.Fld(2, L(ref.KNullInt)))))))
 	}
+	// the intern option changes the codec of string-like fields: presence must be unaffected
+	fo := func(t *ref.T) ref.F { return ref.F{Name: "F", Index: 4, Opt: "intern", T: t} }
+	add("null-field", L(ref.KNullString), sib(fo(L(ref.KNullString))))
+	add("ptr-field", L(ref.KString), sib(fo(ref.Ptr(L(ref.KString)))))
+	add("nested", L(ref.KNullString), sib(f(ref.Ptr(ref.Struct(ref.FldO(1, "intern", L(ref.KNullString)), ref.FldO(2, "intern", L(ref.KString)))))))
+	add("slice-struct", L(ref.KNullString), sib(f(ref.Slice(ref.Struct(ref.FldO(1, "intern", L(ref.KNullString)), ref.Fld(2, L(ref.KNullInt)))))))
 	for _, k := range []ref.Kind{ref.KNullInt, ref.KNullBool, ref.KNullFloat, ref.KNullString, ref.KNullTime} {
 		add("null-field", L(k), sib(f(L(k))))
 		add("map-null", L(k), sib(f(ref.Map(L(ref.KString), L(k)))))
